@@ -206,3 +206,85 @@ func (s *PathState) iid(in ssa.Instruction) string {
 	}
 	return id
 }
+
+// ---- data loops -----------------------------------------------------------------------------------------------------
+//
+// A data loop only computes: its single exit leaves from the header, its body has no calls (builtins excepted), no
+// go/defer/send/select/return/panic and no inner loop. Acyclic enumeration alone sees such a loop only in its
+// zero-iteration form; when that form is infeasible (a range over a buffer known to be non-empty: clearing a key,
+// summing bytes) no path would reach the code behind the loop at all. For data loops the enumeration therefore also
+// produces the "ran at least once" form: header, body once, header again with unknown loop-carried values, exit.
+type dataLoop struct {
+	Header *ssa.BasicBlock
+	Body   map[*ssa.BasicBlock]bool
+	Exit   *ssa.BasicBlock
+}
+
+var dataLoopMemo = map[*ssa.Function]map[*ssa.BasicBlock]*dataLoop{}
+
+func dataLoops(fn *ssa.Function) map[*ssa.BasicBlock]*dataLoop {
+	if m, ok := dataLoopMemo[fn]; ok {
+		return m
+	}
+	out := map[*ssa.BasicBlock]*dataLoop{}
+	dataLoopMemo[fn] = out
+	for _, h := range fn.Blocks {
+		var latches []*ssa.BasicBlock
+		for _, p := range h.Preds {
+			if h.Dominates(p) {
+				latches = append(latches, p)
+			}
+		}
+		if len(latches) == 0 {
+			continue
+		}
+		body := map[*ssa.BasicBlock]bool{h: true}
+		st := append([]*ssa.BasicBlock(nil), latches...)
+		for len(st) > 0 {
+			x := st[len(st)-1]
+			st = st[:len(st)-1]
+			if body[x] {
+				continue
+			}
+			body[x] = true
+			st = append(st, x.Preds...)
+		}
+		ok := true
+		var exit *ssa.BasicBlock
+		for b := range body {
+			if !h.Dominates(b) {
+				ok = false // irreducible
+			}
+			for _, s := range b.Succs {
+				if body[s] {
+					if s != h && s.Dominates(b) {
+						ok = false // inner loop
+					}
+					continue
+				}
+				if b != h || exit != nil {
+					ok = false // an exit from the body, or two exits
+				}
+				exit = s
+			}
+			for _, in := range b.Instrs {
+				switch x := in.(type) {
+				case *ssa.Call:
+					if _, isB := x.Call.Value.(*ssa.Builtin); !isB {
+						ok = false
+					}
+				case *ssa.Go, *ssa.Defer, *ssa.Send, *ssa.Select, *ssa.Return, *ssa.Panic, *ssa.RunDefers, *ssa.MapUpdate:
+					ok = false
+				case *ssa.UnOp:
+					if x.Op.String() == "<-" {
+						ok = false
+					}
+				}
+			}
+		}
+		if ok && exit != nil {
+			out[h] = &dataLoop{Header: h, Body: body, Exit: exit}
+		}
+	}
+	return out
+}
